@@ -161,6 +161,16 @@ def staleOlder (a : Nat) (q : Policy) : Bool :=
 def staleAfter (n : Nat) (q : Policy) : Bool :=
   (atomsOf q).any fun | .after t => !cltvOk n t | _ => false
 
+/-- a lifted policy (or a non-timelock refusal) against the concrete policy's truth table -/
+def judgeLift (c : CPolicy) (q : String) : Option String :=
+  -- an `and` / `or` without children has no `Threshold`: refusing it is no wrong answer
+  if q == "ERRTHRESH" then pure (okbadP (!andOrNonEmpty c))
+  else if q == "PANIC" then pure "bad"
+  else do
+    let q ← parsePolicy q
+    pure (okbadP (!hasMixedPath c
+      && forallVals (atomsOfC c ++ atomsOf q) (fun v => holdsA v q == holdsC v c)))
+
 def opsPolicy (kind op : String) (args : List String) : Option String :=
   match kind, op, args with
   -- correspondence: the model's answer
@@ -214,19 +224,11 @@ def opsPolicy (kind op : String) (args : List String) : Option String :=
           else optLe byVal bySel)))
   | "J", "clift", [c, q] => do
     let c ← parseCPolicy c
-    if q == "ERR" then pure "ok"          -- refusal is judged by `checktl`
-    -- an `and` / `or` without children has no `Threshold`: refusing it is no wrong answer
-    else if q == "ERRTHRESH" then pure (okbadP (!andOrNonEmpty c))
-    else if q == "PANIC" then pure "bad"
-    else do
-      let q ← parsePolicy q
-      pure (okbadP (forallVals (atomsOfC c ++ atomsOf q) (fun v => holdsA v q == holdsC v c)))
+    -- refusal with the timelock error is right iff some satisfiable path mixes height and time
+    if q == "ERR" then pure (okbadP (hasMixedPath c))
+    else judgeLift c q
   | "J", "checktl", [c, ans] => do
     let c ← parseCPolicy c; pure (okbadP ((ans == "err") == hasMixedPath c))
-  | "J", "checktl-struct", [c, ans] => do
-    let c ← parseCPolicy c; pure (okbadP ((ans == "err") == (selsC true c).any mixedLocks))
-  | "J", "checktl-sound", [c, ans] => do
-    let c ← parseCPolicy c; pure (okbadP (!hasMixedPath c || ans == "err"))
   | _, _, _ => none
 
 end MsVerif.Driver.PolicyOps
